@@ -16,3 +16,5 @@ pub mod c01model;
 pub mod c01parse;
 pub mod c01gen;
 pub mod c07tree;
+pub mod c17frame;
+pub mod c17asm;
